@@ -20,6 +20,13 @@ class Fraction:
             return Fraction(int(value), 1)
 
     @staticmethod
+    def _ratio(value: float):
+        # closest ratio of small integers to a non-integer factor (e.g. 0.5 -> 1:2)
+        from fractions import Fraction as _F
+        ratio = _F(float(value)).limit_denominator(1000)
+        return ratio.numerator, ratio.denominator
+
+    @staticmethod
     def from_tuple(value: tuple):
         return Fraction(value[0],value[1])
 
@@ -72,16 +79,22 @@ class Fraction:
             return Fraction(self.num*other.num, self.den*other.den)
         elif isinstance(other, tuple):
             return Fraction(self.num*other[0], self.den*other[1])
+        elif float(other).is_integer():
+            return Fraction(self.num*int(other), self.den)
         else:
-            return Fraction(self.num*other, self.den)
+            num, den = Fraction._ratio(other)
+            return Fraction(self.num*num, self.den*den)
 
     def __truediv__(self, other):
         if isinstance(other, Fraction):
             return Fraction(self.num*other.den, self.den*other.num)
         elif isinstance(other, tuple):
             return Fraction(self.num*other[1], self.den*other[0])
+        elif float(other).is_integer():
+            return Fraction(self.num, self.den*int(other))
         else:
-            return Fraction(self.num, self.den*other)
+            num, den = Fraction._ratio(other)
+            return Fraction(self.num*den, self.den*num)
     
     def __neg__(self):
         return Fraction(-self.num, self.den)
